@@ -425,14 +425,16 @@ impl BufferTransformT for ASCIIHexDecode<'_> {
         let loc = &buf.get_location();
         let mut stage = Vec::new();
         let mut saw_eod = false;
-        for (i, b) in buf.buf().iter().enumerate() {
+        for b in buf.buf().iter() {
             match b {
                 // ignore PDF whitespace
                 0x00 | 0x09 | 0x0A | 0x0C | 0x0D | 0x20 => continue,
                 // handle EOD
                 0x3E => {
                     saw_eod = true;
-                    if i % 2 == 1 {
+                    // An odd number of digits means a final 0 digit
+                    // was left out.
+                    if stage.len() % 2 == 1 {
                         stage.push(0x30);
                     }
                     break
@@ -456,7 +458,8 @@ impl BufferTransformT for ASCIIHexDecode<'_> {
             let err = ErrorKind::TransformError("ASCIIHexDecode: no EOD in input".to_string());
             return Err(locate_value(err, loc.loc_start(), loc.loc_end()))
         }
-        let mut out = Vec::<u8>::with_capacity(stage.len() / 2 + 1);
+        // hex2bin needs an output slice of the decoded length.
+        let mut out = vec![0u8; stage.len() / 2];
         match hex2bin(&stage, &mut out) {
             Ok(res) => Ok(ParseBuffer::new(Vec::from(res))),
             Err(e) => {
